@@ -142,6 +142,9 @@ type Op struct {
 	T        Target `json:"t"`
 	K        Kind   `json:"k"`
 	Retained bool   `json:"retained,omitempty"` // through the handle kept from the previous lookup
+	// Kept: through the handle obtained by the first lookup of (builder, target) in this history,
+	// even across a Cancel/Reset (re-apply through a kept handle); Apply kinds only.
+	Kept bool `json:"kept,omitempty"`
 }
 
 func (o Op) String() string {
@@ -154,6 +157,9 @@ func (o Op) String() string {
 	h := ""
 	if o.Retained {
 		h = "[retained]"
+	}
+	if o.Kept {
+		h = "[kept]"
 	}
 	return fmt.Sprintf("b%d.%s%s.%s", o.B, TargetNames[o.T], h, KindNames[o.K])
 }
@@ -180,6 +186,7 @@ type handle struct {
 type World struct {
 	B       [2]*mocker.Builder
 	handles [2][NTargets]*handle
+	kept    [2][NTargets]*handle
 	nRet    [2][NTargets]int
 	nWhen   [2][NTargets]int
 	og      func(int) int
@@ -214,6 +221,9 @@ func (w *World) lookup(b int, t Target) *handle {
 		h.iface = bd.Interface(&hw.X).Method("A")
 	}
 	w.handles[b][t] = h
+	if w.kept[b][t] == nil {
+		w.kept[b][t] = h
+	}
 	return h
 }
 
@@ -238,7 +248,9 @@ func (w *World) Do(op Op) (panicMsg string, panicked bool) {
 			return
 		}
 		var h *handle
-		if op.Retained && w.handles[op.B][op.T] != nil {
+		if op.Kept && w.kept[op.B][op.T] != nil {
+			h = w.kept[op.B][op.T]
+		} else if op.Retained && w.handles[op.B][op.T] != nil {
 			h = w.handles[op.B][op.T]
 		} else {
 			h = w.lookup(op.B, op.T)
